@@ -81,6 +81,7 @@ struct Recorder {
 refed::Mat lattice_H(const Lattice& L, const IndexClassification& IC);
 
 std::string mat_key(const refed::Mat& H);
+std::string mat_key_full(const refed::Mat& H);
 
 struct MState { std::vector<int> hist; int depth; };
 
